@@ -365,9 +365,24 @@ def env_part(ck, cases, cj, sigs, tag, env, n_keys, n_steps, seed, cfg_desc):
     names = leaf_names(base)
     meta = {}
 
-    def one(k):
+    from lerax.env.unitree.g1.gait import advance_gait_phase as _adv
+    LONG = 500_000     # control steps of an earlier, long part of the episode (bookkeeping only; see below)
+
+    def one(k, idx):
         ik, rk = jr.split(k)
         s = env.initial(key=ik)
+        s_init = s
+        # "along ANY episode": the recorded rollout of every other key starts from the state a LONG episode prefix leaves behind
+        # as far as the gait bookkeeping goes: time and step counter accumulated step by step exactly as transition() does, the
+        # phase chained LONG times through the library's own advance_gait_phase.  (The physics part of the state after such a
+        # prefix is unknown, but the phase bookkeeping is independent of the physics.)
+        def book(_, c):
+            t, n, ph = c
+            return t + env.dt, n + 1, _adv(ph, s.gait_frequency, env.dt)
+        t_l, n_l, ph_l = jax.lax.fori_loop(0, LONG, book, (s.t, s.step_count, s.gait_phase))
+        long_start = (idx % 2) == 1
+        s = eqx.tree_at(lambda z: (z.t, z.step_count, z.gait_phase), s,
+                        (jnp.where(long_start, t_l, s.t), jnp.where(long_start, n_l, s.step_count), jnp.where(long_start, ph_l, s.gait_phase)))
         meta["struct_same"] = jax.tree_util.tree_structure(s.model) == jax.tree_util.tree_structure(base)
         flags = same_flags(base, s.model)
         d2 = mjx.forward(s.model, s.sim_state)
@@ -386,11 +401,11 @@ def env_part(ck, cases, cj, sigs, tag, env, n_keys, n_steps, seed, cfg_desc):
                 "dof_armature": s.model.dof_armature, "body_mass": s.model.body_mass, "qpos": d.qpos, "qvel": d.qvel,
                 "xpos": d.xpos, "xquat": d.xquat, "xmat": d.xmat, "site_xpos": d.site_xpos, "site_xmat": d.site_xmat,
                 "geom_xpos": d.geom_xpos, "command": s.command, "freq": s.gait_frequency, "phase0": s.gait_phase,
-                "t": s.t, "step_count": s.step_count, "phases": phs, "freqs": frs}
+                "t": s_init.t, "step_count": s_init.step_count, "phases": phs, "freqs": frs, "long_start": long_start}
 
     keys = jr.split(jr.key(seed), n_keys)
     ck.current_case = {"task": tag, "config": cfg_desc, "seed": seed, "n_keys": n_keys}
-    out = eqx.filter_jit(jax.vmap(one))(keys)
+    out = eqx.filter_jit(jax.vmap(one))(keys, jnp.arange(n_keys))
     out = jax.tree.map(np.asarray, out)
     t_run = time.time() - t0
     ck.log(f"{tag}: initial x{n_keys} + forward + {n_steps}-step rollouts: {t_run:.1f}s (compile included)")
@@ -441,7 +456,9 @@ def env_part(ck, cases, cj, sigs, tag, env, n_keys, n_steps, seed, cfg_desc):
             lit = (f"Traj {ql(PI32)} {ql(TOL32)} {ql(drift_tol(TOL32, n_steps, np.float32))} {pl(p0[0], p0[1])} {listl(pl(f, dt) for f in fprev)} "
                    f"{listl(pl(a, b) for a, b in out['phases'][i])}")
         cases.append(lit)
+        ck.count("rollouts-after-a-long-episode-prefix", int(bool(out["long_start"][i])))
         j = dict(info); j.update({"field": "gait_phase along env.transition", "steps": n_steps, "dt": float(dt), "gait_frequency": float(out["freq"][i]),
+                                  "control_steps_before_the_recorded_rollout": LONG if bool(out["long_start"][i]) else 0,
                                   "initial_phase": p0.tolist(), "impl_first_phases": out["phases"][i][:4].tolist(),
                                   "impl_last_phase": out["phases"][i][-1].tolist(), "actions": "uniform(-1,1) from the key"})
         cj.append(j); sigs.append(f"C20/{tag}/gait_phase")
